@@ -556,6 +556,22 @@ class Idioms3(ast.NodeTransformer):
     def visit_Call(self, node):
         self.generic_visit(node)
         fn = norm(node.func)
+        # f(**{"a": x, "b": y}) -> f(a=x, b=y)
+        if any(k.arg is None and isinstance(k.value, ast.Dict)
+               for k in node.keywords):
+            kws = []
+            for k in node.keywords:
+                if k.arg is None and isinstance(k.value, ast.Dict) and all(
+                        kk is not None and isinstance(kk, ast.Constant)
+                        and isinstance(kk.value, str)
+                        and kk.value.isidentifier()
+                        for kk in k.value.keys):
+                    kws.extend(ast.keyword(arg=kk.value, value=vv)
+                               for kk, vv in zip(k.value.keys,
+                                                 k.value.values))
+                else:
+                    kws.append(k)
+            node.keywords = kws
         # numpy method form -> function form: x.argmax() -> np.argmax(x)
         if isinstance(node.func, ast.Attribute) and \
                 node.func.attr in _NP_METHODS and not (
@@ -664,6 +680,15 @@ class Idioms3(ast.NodeTransformer):
         if fn == "list" and len(node.args) == 1 and not node.keywords and \
                 isinstance(node.args[0], ast.ListComp):
             return node.args[0]
+        # sorted(<display of string constants>) -> the sorted list
+        if fn == "sorted" and len(node.args) == 1 and not node.keywords \
+                and isinstance(node.args[0], (ast.Tuple, ast.List)) and \
+                node.args[0].elts and all(
+                    isinstance(e, ast.Constant) and isinstance(e.value, str)
+                    for e in node.args[0].elts):
+            return ast.copy_location(ast.List(
+                elts=sorted(node.args[0].elts, key=lambda c: c.value),
+                ctx=ast.Load()), node)
         # list((a, b)) / tuple([a, b]) / list([a, b]) -> display
         if fn in ("list", "tuple") and len(node.args) == 1 and \
                 not node.keywords and isinstance(
@@ -706,6 +731,46 @@ class Idioms3(ast.NodeTransformer):
                           ctx=ast.Load())
                 for i, e in enumerate(node.args[0].elts)], ctx=ast.Load()),
                 node)
+        return node
+
+    @staticmethod
+    def _keyset_test(e):
+        """`d.keys() & {"a", "b"}` in a boolean context ->
+        `"a" in d or "b" in d`"""
+        if not (isinstance(e, ast.BinOp) and isinstance(e.op, ast.BitAnd)):
+            return e
+        for keys, lits in ((e.left, e.right), (e.right, e.left)):
+            if isinstance(lits, ast.Set) and all(isinstance(
+                    x, ast.Constant) for x in lits.elts) and lits.elts:
+                d = None
+                if isinstance(keys, ast.Call) and isinstance(
+                        keys.func, ast.Attribute) and \
+                        keys.func.attr == "keys" and not keys.args:
+                    d = keys.func.value
+                elif isinstance(keys, ast.Call) and norm(
+                        keys.func) == "set" and len(keys.args) == 1:
+                    d = keys.args[0]
+                if d is not None and isinstance(d, (ast.Name,
+                                                    ast.Attribute)):
+                    tests = [ast.Compare(left=x, ops=[ast.In()],
+                                         comparators=[clone(d)])
+                             for x in sorted(lits.elts,
+                                             key=lambda c: str(c.value))]
+                    new = tests[0] if len(tests) == 1 else ast.BoolOp(
+                        op=ast.Or(), values=tests)
+                    return ast.copy_location(new, e)
+        return e
+
+    def visit_If(self, node):
+        self.generic_visit(node)
+        node.test = self._keyset_test(node.test)
+        ast.fix_missing_locations(node)
+        return node
+
+    def visit_While(self, node):
+        self.generic_visit(node)
+        node.test = self._keyset_test(node.test)
+        ast.fix_missing_locations(node)
         return node
 
     def visit_Subscript(self, node):
@@ -766,6 +831,39 @@ class Idioms3(ast.NodeTransformer):
                 value=c.args[0], attr=c.args[1].value, ctx=ast.Store())],
                 value=c.args[2]), node)
         return node
+
+    def visit_BinOp(self, node):
+        self.generic_visit(node)
+        # ("a",) + ("b",) -> ("a", "b")
+        if isinstance(node.op, ast.Add) and type(node.left) is type(
+                node.right) and isinstance(node.left, (ast.Tuple,
+                                                       ast.List)) and \
+                not any(isinstance(e, ast.Starred)
+                        for e in node.left.elts + node.right.elts):
+            return ast.copy_location(type(node.left)(
+                elts=node.left.elts + node.right.elts, ctx=ast.Load()), node)
+        return node
+
+    def visit_DictComp(self, node):
+        self.generic_visit(node)
+        # {k: f(k) for k in ["a", "b"]} -> {"a": f("a"), "b": f("b")}
+        if len(node.generators) != 1:
+            return node
+        g = node.generators[0]
+        if g.ifs or g.is_async or not isinstance(
+                g.iter, (ast.List, ast.Tuple)) or not (
+                    1 <= len(g.iter.elts) <= self.MAX) or not isinstance(
+                    g.target, ast.Name):
+            return node
+        from .normalize import Unroll
+        if not all(Unroll._item_ok(e) for e in g.iter.elts):
+            return node
+        keys, vals = [], []
+        for e in g.iter.elts:
+            m = {g.target.id: e}
+            keys.append(_SubstNames(m).visit(clone(node.key)))
+            vals.append(_SubstNames(m).visit(clone(node.value)))
+        return ast.copy_location(ast.Dict(keys=keys, values=vals), node)
 
     def visit_ListComp(self, node):
         self.generic_visit(node)
@@ -1569,13 +1667,32 @@ class MatchToIf(ast.NodeTransformer):
         if isinstance(pat, ast.MatchAs) and pat.pattern is None and \
                 pat.name is None:
             return True           # wildcard
+        if isinstance(pat, ast.MatchSequence) and isinstance(
+                subj, ast.Tuple) and len(pat.patterns) == len(
+                subj.elts) and not any(isinstance(p, ast.MatchStar)
+                                       for p in pat.patterns):
+            parts = []
+            for p, e in zip(pat.patterns, subj.elts):
+                t = self._test(p, e)
+                if t is None:
+                    return None
+                if t is not True:
+                    parts.append(t)
+            if not parts:
+                return True
+            return parts[0] if len(parts) == 1 else ast.BoolOp(
+                op=ast.And(), values=parts)
         return None
 
     def visit_Match(self, node):
         self.generic_visit(node)
         subj = node.subject
         pre = []
-        if not isinstance(subj, (ast.Name, ast.Attribute, ast.Constant)):
+        if isinstance(subj, ast.Tuple) and all(isinstance(
+                e, (ast.Name, ast.Constant, ast.Attribute))
+                for e in subj.elts):
+            pass          # a tuple of plain values: compared element-wise
+        elif not isinstance(subj, (ast.Name, ast.Attribute, ast.Constant)):
             self.n += 1
             tmp = ast.Name(id=f"_match_subject{self.n}", ctx=ast.Store())
             pre = [ast.copy_location(ast.Assign(targets=[tmp], value=subj),
@@ -1720,5 +1837,233 @@ def exitstack_rollback(fn):
                 ast.copy_location(new, w)
                 ast.fix_missing_locations(new)
                 blk[i] = new
+                done = True
+    return done
+
+
+def generators_to_lists(tree):
+    """A private generator function (module level or method) all of whose
+    uses consume it completely (`list(g(..))`, `tuple`, `sorted`, `for`,
+    `.extend`, `.join`) becomes a function that returns the list of the
+    yielded items; `list(g(..))` becomes `g(..)`.  (Eager instead of lazy
+    evaluation of a side-effect free producer; the helper inliner can then
+    place the body at the call site.)"""
+    gens = {}
+    for holder in [tree] + [c for c in tree.body
+                            if isinstance(c, ast.ClassDef)]:
+        for st in holder.body:
+            if not (isinstance(st, ast.FunctionDef) and st.name.startswith(
+                    "_") and not st.name.startswith("__")
+                    and not st.decorator_list):
+                continue
+            own = []
+            stack = list(st.body)
+            while stack:
+                n = stack.pop()
+                own.append(n)
+                for c in ast.iter_child_nodes(n):
+                    if not isinstance(c, (ast.FunctionDef, ast.Lambda,
+                                          ast.ClassDef)):
+                        stack.append(c)
+            ys = [n for n in own if isinstance(n, (ast.Yield, ast.YieldFrom))]
+            if not ys:
+                continue
+            # every yield is an expression statement; no `return <value>`
+            ok = all(isinstance(n, ast.Expr) for n in own
+                     if isinstance(n, ast.Expr) and isinstance(
+                         n.value, (ast.Yield, ast.YieldFrom))) and \
+                not any(isinstance(n, ast.Return) and n.value is not None
+                        for n in own)
+            ystm = [n for n in own if isinstance(n, ast.Expr) and isinstance(
+                n.value, (ast.Yield, ast.YieldFrom))]
+            if not ok or len(ystm) != len(ys):
+                continue
+            gens[st.name] = (st, holder)
+    if not gens:
+        return False
+    parent = {}
+    for p_ in ast.walk(tree):
+        for c_ in ast.iter_child_nodes(p_):
+            parent[id(c_)] = p_
+    changed = False
+    for name, (fdef, holder) in gens.items():
+        refs = [n for n in ast.walk(tree)
+                if (isinstance(n, ast.Name) and n.id == name)
+                or (isinstance(n, ast.Attribute) and n.attr == name)]
+        calls = []
+        ok = True
+        for r in refs:
+            up = parent.get(id(r))
+            if not (isinstance(up, ast.Call) and up.func is r):
+                ok = False
+                break
+            up2 = parent.get(id(up))
+            consumed = (
+                (isinstance(up2, ast.Call) and norm(up2.func) in (
+                    "list", "tuple", "sorted", "set", "any", "all", "sum")
+                 and up2.args and up2.args[0] is up)
+                or (isinstance(up2, ast.Call) and isinstance(
+                    up2.func, ast.Attribute) and up2.func.attr in (
+                        "extend", "join") and up2.args
+                    and up2.args[0] is up)
+                or (isinstance(up2, (ast.For, ast.comprehension))
+                    and up2.iter is up))
+            if not consumed:
+                ok = False
+                break
+            calls.append((up, up2))
+        if not ok or not calls:
+            continue
+        acc = "_items"
+        taken = {n.id for n in ast.walk(fdef) if isinstance(n, ast.Name)}
+        while acc in taken:
+            acc += "_"
+
+        class Y(ast.NodeTransformer):
+            def visit_FunctionDef(self, node):
+                if node is fdef:
+                    self.generic_visit(node)
+                return node
+
+            def visit_Lambda(self, node):
+                return node
+
+            def visit_Expr(self, node):
+                v = node.value
+                if isinstance(v, ast.Yield):
+                    return ast.copy_location(ast.Expr(value=ast.Call(
+                        func=ast.Attribute(value=ast.Name(
+                            id=acc, ctx=ast.Load()), attr="append",
+                            ctx=ast.Load()),
+                        args=[v.value or ast.Constant(value=None)],
+                        keywords=[])), node)
+                if isinstance(v, ast.YieldFrom):
+                    return ast.copy_location(ast.AugAssign(
+                        target=ast.Name(id=acc, ctx=ast.Store()),
+                        op=ast.Add(),
+                        value=ast.Call(func=ast.Name(id="list",
+                                                     ctx=ast.Load()),
+                                       args=[v.value], keywords=[])), node)
+                return node
+
+            def visit_Return(self, node):
+                return ast.copy_location(ast.Return(value=ast.Name(
+                    id=acc, ctx=ast.Load())), node)
+        Y().visit(fdef)
+        doc = [s_ for s_ in fdef.body[:1] if isinstance(s_, ast.Expr)
+               and isinstance(s_.value, ast.Constant)]
+        rest = fdef.body[len(doc):]
+        fdef.body = doc + [ast.Assign(
+            targets=[ast.Name(id=acc, ctx=ast.Store())],
+            value=ast.List(elts=[], ctx=ast.Load()))] + rest + [
+            ast.Return(value=ast.Name(id=acc, ctx=ast.Load()))]
+        ast.fix_missing_locations(fdef)
+        from .normalize import _replace_node
+        for call, user in calls:
+            if isinstance(user, ast.Call) and norm(user.func) == "list":
+                _replace_node(tree, user, call)
+        changed = True
+    return changed
+
+
+def collapse_aliases(fn):
+    """`y = x` where y is bound nowhere else, and x (a local that is not a
+    parameter) is not read again in the statements that follow -> x is
+    renamed to y throughout and the alias statement is dropped (from the
+    alias on both names denote the same object; before it y has no value)."""
+    params = {a.arg for a in fn.args.args + fn.args.kwonlyargs
+              + fn.args.posonlyargs}
+    if fn.args.vararg:
+        params.add(fn.args.vararg.arg)
+    if fn.args.kwarg:
+        params.add(fn.args.kwarg.arg)
+    done = False
+    for par in [fn] + list(_walk_own(fn)):
+        for fld in ("body", "orelse", "finalbody"):
+            blk = getattr(par, fld, None)
+            if not isinstance(blk, list):
+                continue
+            for i, st in enumerate(blk):
+                if not (isinstance(st, ast.Assign) and len(st.targets) == 1
+                        and isinstance(st.targets[0], ast.Name)
+                        and isinstance(st.value, ast.Name)):
+                    continue
+                y, x = st.targets[0].id, st.value.id
+                if x == y or x in params or y in params:
+                    continue
+                names = [n for n in ast.walk(fn) if isinstance(n, ast.Name)]
+                y_stores = [n for n in names if n.id == y and isinstance(
+                    n.ctx, (ast.Store, ast.Del))]
+                x_stores = [n for n in names if n.id == x and isinstance(
+                    n.ctx, ast.Store)]
+                if len(y_stores) != 1 or not x_stores:
+                    continue
+                if any(isinstance(n, (ast.Global, ast.Nonlocal))
+                       for n in ast.walk(fn)):
+                    continue
+                # x must not be read in the statements after the alias
+                later = blk[i + 1:]
+                if any(isinstance(n, ast.Name) and n.id == x and isinstance(
+                        n.ctx, ast.Load) for s_ in later
+                        for n in ast.walk(s_)):
+                    continue
+                # nested functions capturing either name: leave alone
+                if any(isinstance(n, ast.Name) and n.id in (x, y)
+                       for d in ast.walk(fn) if d is not fn and isinstance(
+                           d, (ast.FunctionDef, ast.Lambda))
+                       for n in ast.walk(d)):
+                    continue
+                # only when the alias is the last thing done with x in its
+                # block and x is created in the same block (a built-up list)
+                if not any(isinstance(s_, ast.Assign) and any(
+                        isinstance(t, ast.Name) and t.id == x
+                        for t in s_.targets) for s_ in blk[:i]):
+                    continue
+                for n in names:
+                    if n.id == x:
+                        n.id = y
+                del blk[i]
+                done = True
+                break
+    return done
+
+
+def class_constants(tree):
+    """a private class attribute bound once (in the class body) to a literal
+    tuple/list of constants and never assigned through an instance ->
+    `self.X` / `cls.X` / `Class.X` read as that literal"""
+    from .normalize import _literal_coll
+    done = False
+    for cls in tree.body:
+        if not isinstance(cls, ast.ClassDef):
+            continue
+        consts = {}
+        for st in cls.body:
+            if isinstance(st, ast.Assign) and len(st.targets) == 1 and \
+                    isinstance(st.targets[0], ast.Name) and \
+                    st.targets[0].id.startswith("_") and isinstance(
+                        st.value, (ast.Tuple, ast.List)) and \
+                    _literal_coll(st.value):
+                consts[st.targets[0].id] = st.value
+        if not consts:
+            continue
+        for n in ast.walk(tree):
+            if isinstance(n, ast.Attribute) and n.attr in consts and \
+                    isinstance(n.ctx, (ast.Store, ast.Del)):
+                consts.pop(n.attr, None)
+        if not consts:
+            continue
+
+        class R(ast.NodeTransformer):
+            def visit_Attribute(self, node):
+                if isinstance(node.ctx, ast.Load) and node.attr in consts \
+                        and isinstance(node.value, ast.Name) and \
+                        node.value.id in ("self", "cls", cls.name):
+                    return ast.copy_location(clone(consts[node.attr]), node)
+                self.generic_visit(node)
+                return node
+        for m in cls.body:
+            if isinstance(m, ast.FunctionDef):
+                R().visit(m)
                 done = True
     return done
